@@ -182,11 +182,9 @@ Proof. intros; unfold opaque_texts_neutral; apply Forall_app. Qed.
 
 (* ------------------------------------------------------------------ layouts *)
 Section Layouts.
-  Variable e2s : expr -> string.
-  Variable needs_parens : binop -> expr -> bool -> bool.
-  Variable record_key : string -> string.
+  Variable O : oracles.
   Variable key_ok : string -> bool.
-  Hypothesis Hrk : forall k, key_ok k = true -> neutral (record_key k).
+  Hypothesis Hrk : forall k, key_ok k = true -> neutral (o_record_key O k).
   Variable w : nat.
   Variable rec : expr -> nat -> doc.
 
@@ -202,6 +200,28 @@ Section Layouts.
 
   Lemma otn_cons : forall p d, opaque_texts_neutral (p :: d) -> opaque_texts_neutral d.
   Proof. intros p d H. inversion H; assumption. Qed.
+
+  Lemma wrap_parens_good : forall b d, Good d -> Good (wrap_parens b d).
+  Proof.
+    intros [] d H; [|exact H]. unfold wrap_parens.
+    repeat apply good_app; try (apply good_code; reflexivity). exact H.
+  Qed.
+  Lemma otn_wrap_parens : forall b d, opaque_texts_neutral (wrap_parens b d) -> opaque_texts_neutral d.
+  Proof.
+    intros [] d H; [|exact H]. unfold wrap_parens in H. apply otn_app in H as [_ H].
+    now apply otn_app in H as [H _].
+  Qed.
+
+  Lemma protect_minus_good : forall d b, Good d -> Good (protect_minus d b).
+  Proof.
+    intros d b H. unfold protect_minus. destruct (negb b && starts_with_minus (render d)); [|exact H].
+    repeat apply good_app; try (apply good_code; reflexivity). exact H.
+  Qed.
+  Lemma otn_protect_minus : forall d b, opaque_texts_neutral (protect_minus d b) -> opaque_texts_neutral d.
+  Proof.
+    intros d b H. unfold protect_minus in H. destruct (negb b && starts_with_minus (render d)); [|exact H].
+    apply otn_app in H as [_ H]. now apply otn_app in H as [H _].
+  Qed.
 
   (* items of a list: the loop followed by a tail that starts with a line break *)
   Lemma list_items_wf : forall l inner Y,
@@ -261,10 +281,10 @@ Section Layouts.
     end.
 
   Lemma entry_doc_good : forall r i, R_entry r -> key_atoms_ok r = true ->
-    opaque_texts_neutral (entry_doc record_key rec r i) -> Good (entry_doc record_key rec r i).
+    opaque_texts_neutral (entry_doc O rec r i) -> Good (entry_doc O rec r i).
   Proof.
     intros [[k|ke|name|x] v] i HR HK HO; cbn [entry_doc R_entry key_atoms_ok] in *.
-    - change (Code (record_key k +++ ": ") :: rec v i) with ([Code (record_key k +++ ": ")] ++ rec v i).
+    - change (Code (o_record_key O k +++ ": ") :: rec v i) with ([Code (o_record_key O k +++ ": ")] ++ rec v i).
       apply good_app; [apply good_code, neutral_app; [now apply Hrk|reflexivity]|].
       apply HR. now apply otn_cons in HO.
     - destruct HR as [Rk Rv]. apply otn_app in HO as [_ HO]. apply otn_app in HO as [Ok HO].
@@ -277,10 +297,10 @@ Section Layouts.
   Lemma rec_entries_wf : forall l inner Y,
     Forall (fun c => R_entry (cnode c)) l ->
     forallb (fun c => comments_ok c && key_atoms_ok (cnode c)) l = true ->
-    opaque_texts_neutral (rec_entries_doc record_key rec l inner) ->
+    opaque_texts_neutral (rec_entries_doc O rec l inner) ->
     wf_doc Y -> starts_nl Y = true ->
-    wf_doc (rec_entries_doc record_key rec l inner ++ Y) /\
-    starts_nl (rec_entries_doc record_key rec l inner ++ Y) = true.
+    wf_doc (rec_entries_doc O rec l inner ++ Y) /\
+    starts_nl (rec_entries_doc O rec l inner ++ Y) = true.
   Proof.
     induction l as [|[lead n tr] r IH]; intros inner Y HR HC HO HY HS; [split; assumption|].
     inversion HR as [|? ? Hn Hr]; subst. cbn [cnode] in Hn.
@@ -293,28 +313,28 @@ Section Layouts.
     destruct (IH inner Y Hr HCr Or HY HS) as [Wr Sr].
     rewrite <- !app_assoc.
     apply wf_leading_then; [exact Hl| |reflexivity].
-    change ([Nl; ind inner] ++ entry_doc record_key rec n inner ++ [Code ","] ++ trailing_doc tr ++
-            rec_entries_doc record_key rec r inner ++ Y)
-      with (([Nl; ind inner]) ++ (entry_doc record_key rec n inner ++ [Code ","] ++ trailing_doc tr ++
-            rec_entries_doc record_key rec r inner ++ Y)).
+    change ([Nl; ind inner] ++ entry_doc O rec n inner ++ [Code ","] ++ trailing_doc tr ++
+            rec_entries_doc O rec r inner ++ Y)
+      with (([Nl; ind inner]) ++ (entry_doc O rec n inner ++ [Code ","] ++ trailing_doc tr ++
+            rec_entries_doc O rec r inner ++ Y)).
     apply wf_app_good; [apply good_nl_ind|apply good_nl_ind|].
     destruct (entry_doc_good n inner Hn Hk On) as [Wn En].
     apply wf_app_good; [exact Wn|exact En|].
-    change ([Code ","] ++ trailing_doc tr ++ rec_entries_doc record_key rec r inner ++ Y)
-      with (Code "," :: (trailing_doc tr ++ rec_entries_doc record_key rec r inner ++ Y)).
+    change ([Code ","] ++ trailing_doc tr ++ rec_entries_doc O rec r inner ++ Y)
+      with (Code "," :: (trailing_doc tr ++ rec_entries_doc O rec r inner ++ Y)).
     cbn [wf_doc]. split; [reflexivity|]. now apply wf_trailing_then.
   Qed.
 
   Lemma record_doc_good : forall entries i,
     Forall (fun c => R_entry (cnode c)) entries ->
     forallb (fun c => comments_ok c && key_atoms_ok (cnode c)) entries = true ->
-    opaque_texts_neutral (record_doc record_key rec entries i) -> Good (record_doc record_key rec entries i).
+    opaque_texts_neutral (record_doc O rec entries i) -> Good (record_doc O rec entries i).
   Proof.
     intros entries i HR HC HO. destruct entries as [|c r]; [apply good_code; reflexivity|].
     unfold record_doc in *. apply otn_app in HO as [_ HO]. apply otn_app in HO as [HO _].
     split.
-    - change ([Code "{"] ++ rec_entries_doc record_key rec (c :: r) (i + INDENT_SIZE) ++ [Nl; ind i; Code "}"])
-        with (Code "{" :: (rec_entries_doc record_key rec (c :: r) (i + INDENT_SIZE) ++ [Nl; ind i; Code "}"])).
+    - change ([Code "{"] ++ rec_entries_doc O rec (c :: r) (i + INDENT_SIZE) ++ [Nl; ind i; Code "}"])
+        with (Code "{" :: (rec_entries_doc O rec (c :: r) (i + INDENT_SIZE) ++ [Nl; ind i; Code "}"])).
       cbn [wf_doc]. split; [reflexivity|].
       assert (T : wf_doc [Nl; ind i; Code "}"]) by (cbn; repeat split; try reflexivity; try apply neutral_indent).
       exact (proj1 (rec_entries_wf _ _ _ HR HC HO T eq_refl)).
@@ -322,26 +342,26 @@ Section Layouts.
   Qed.
 
   (* do-blocks *)
-  Lemma do_stmts_wf : forall l inner Y,
+  Lemma do_stmts_wf : forall l inner first Y,
     Forall (fun c => R (cnode c)) l -> forallb comments_ok l = true ->
-    opaque_texts_neutral (do_stmts_doc rec l inner) ->
+    opaque_texts_neutral (do_stmts_doc rec l inner first) ->
     wf_doc Y -> starts_nl Y = true ->
-    wf_doc (do_stmts_doc rec l inner ++ Y) /\ starts_nl (do_stmts_doc rec l inner ++ Y) = true.
+    wf_doc (do_stmts_doc rec l inner first ++ Y) /\ starts_nl (do_stmts_doc rec l inner first ++ Y) = true.
   Proof.
-    induction l as [|[lead n tr] r IH]; intros inner Y HR HC HO HY HS; [split; assumption|].
+    induction l as [|[lead n tr] r IH]; intros inner first Y HR HC HO HY HS; [split; assumption|].
     inversion HR as [|? ? Hn Hr]; subst. cbn [cnode] in Hn.
     cbn [forallb] in HC. apply andb_prop in HC as [Hc HCr].
     unfold comments_ok in Hc. cbn [cleading ctrailing] in Hc. apply andb_prop in Hc as [Hl Ht].
     cbn [do_stmts_doc] in *.
     apply otn_app in HO as [_ HO]. apply otn_app in HO as [_ HO]. apply otn_app in HO as [On HO].
     apply otn_app in HO as [_ Or].
-    destruct (IH inner Y Hr HCr Or HY HS) as [Wr Sr].
+    destruct (IH inner false Y Hr HCr Or HY HS) as [Wr Sr].
     rewrite <- !app_assoc.
     apply wf_leading_then; [exact Hl| |reflexivity].
-    change ([Nl; ind inner] ++ rec n inner ++ trailing_doc tr ++ do_stmts_doc rec r inner ++ Y)
-      with (([Nl; ind inner]) ++ (rec n inner ++ trailing_doc tr ++ do_stmts_doc rec r inner ++ Y)).
+    change ([Nl; ind inner] ++ protect_minus (rec n inner) first ++ trailing_doc tr ++ do_stmts_doc rec r inner false ++ Y)
+      with (([Nl; ind inner]) ++ (protect_minus (rec n inner) first ++ trailing_doc tr ++ do_stmts_doc rec r inner false ++ Y)).
     apply wf_app_good; [apply good_nl_ind|apply good_nl_ind|].
-    destruct (Hn inner On) as [Wn En].
+    destruct (protect_minus_good _ first (Hn inner (otn_protect_minus _ _ On))) as [Wn En].
     apply wf_app_good; [exact Wn|exact En|]. now apply wf_trailing_then.
   Qed.
 
@@ -355,10 +375,10 @@ Section Layouts.
     apply otn_app in HO as [_ HO]. apply otn_app in HO as [Or _].
     destruct (HR _ Or) as [Wr Er].
     split.
-    - change ([Code "do {"] ++ do_stmts_doc rec stmts (i + INDENT_SIZE) ++
+    - change ([Code "do {"] ++ do_stmts_doc rec stmts (i + INDENT_SIZE) true ++
               leading_doc (i + INDENT_SIZE) (cleading ret) ++ [Nl; ind (i + INDENT_SIZE); Code "return "] ++
               rec (cnode ret) (i + INDENT_SIZE) ++ [Nl; ind i; Code "}"])
-        with (Code "do {" :: (do_stmts_doc rec stmts (i + INDENT_SIZE) ++
+        with (Code "do {" :: (do_stmts_doc rec stmts (i + INDENT_SIZE) true ++
               (leading_doc (i + INDENT_SIZE) (cleading ret) ++ [Nl; ind (i + INDENT_SIZE); Code "return "] ++
               rec (cnode ret) (i + INDENT_SIZE) ++ [Nl; ind i; Code "}"]))).
       cbn [wf_doc]. split; [reflexivity|].
@@ -366,14 +386,14 @@ Section Layouts.
       { cbn [app wf_doc]. split; [apply neutral_indent|]. split; [reflexivity|].
         apply wf_app_good; [exact Wr|exact Er|]. cbn; repeat split; try reflexivity; try apply neutral_indent. }
       destruct (wf_leading_then (i + INDENT_SIZE) (cleading ret) _ HL T eq_refl) as [WL SL].
-      exact (proj1 (do_stmts_wf _ _ _ HS HC Os WL SL)).
+      exact (proj1 (do_stmts_wf _ _ _ _ HS HC Os WL SL)).
     - rewrite !app_assoc. apply ends_code_app; [reflexivity|discriminate].
   Qed.
 
   (* lambda *)
   Lemma lambda_doc_good : forall args body i,
     forallb (fun a => plain (arg_name a)) args = true -> R body ->
-    opaque_texts_neutral (lambda_doc w rec args body i) -> Good (lambda_doc w rec args body i).
+    opaque_texts_neutral (lambda_doc O w rec args body i) -> Good (lambda_doc O w rec args body i).
   Proof.
     intros args body i HA HR HO.
     assert (NA : forall suffix, plain suffix = true -> neutral (lambda_args_part args +++ suffix)).
@@ -392,11 +412,12 @@ Section Layouts.
     destruct (is_do body).
     - apply otn_app in HO as [_ HO]. apply good_app; [apply good_code|now apply HR].
       rewrite append_assoc. apply NA. reflexivity.
-    - match goal with |- context [if ?b then _ else _] => destruct b end.
-      + apply otn_app in HO as [_ HO]. apply good_app; [apply good_code|now apply HR].
+    - match goal with |- context [if negb ?a && ?b then _ else _] => destruct (negb a && b) end.
+      + apply otn_app in HO as [_ HO].
+        apply good_app; [apply good_code|apply wrap_parens_good, HR; now apply otn_wrap_parens in HO].
         rewrite append_assoc. apply NA. reflexivity.
       + apply otn_app in HO as [_ HO].
-        apply good_app; [|now apply HR].
+        apply good_app; [|apply wrap_parens_good, HR; now apply otn_wrap_parens in HO].
         split; [|reflexivity]. cbn [wf_doc]. split; [apply NA; reflexivity|].
         split; [apply neutral_indent|exact I].
   Qed.
@@ -427,8 +448,7 @@ Section Layouts.
     { intros. split; [cbn; repeat split; try reflexivity; try apply neutral_indent|reflexivity]. }
     assert (G5 : forall k k2, Good [Nl; ind k; Code "then"; Nl; ind k2]).
     { intros. split; [cbn; repeat split; try reflexivity; try apply neutral_indent|reflexivity]. }
-    assert (G6 : forall k, Good [Code "if"; Nl; ind k]).
-    { intros. split; [cbn; repeat split; try reflexivity; try apply neutral_indent|reflexivity]. }
+    assert (G6 : Good [Code "if "]) by (apply good_code; reflexivity).
     assert (D : (exists c2 t2 e2, el = ECond c2 t2 e2) \/ (forall c2 t2 e2, el <> ECond c2 t2 e2))
       by (destruct el; try (right; intros; discriminate); left; eauto).
     destruct D as [(c2 & t2 & e2 & ->) | NC].
@@ -453,13 +473,12 @@ Section Layouts.
 
   (* call *)
   Lemma call_doc_good : forall f args i, R f -> Forall R args ->
-    opaque_texts_neutral (call_doc rec f args i) -> Good (call_doc rec f args i).
+    opaque_texts_neutral (call_doc O rec f args i) -> Good (call_doc O rec f args i).
   Proof.
     intros f args i Hf Ha HO. unfold call_doc in *. cbv zeta in *.
-    assert (F : opaque_texts_neutral (if is_lambda f then [Code "("] ++ rec f i ++ [Code ")"] else rec f i) ->
-                Good (if is_lambda f then [Code "("] ++ rec f i ++ [Code ")"] else rec f i)).
-    { destruct (is_lambda f); [|apply Hf]. intros O. apply otn_app in O as [_ O]. apply otn_app in O as [O _].
-      repeat apply good_app; try (apply good_code; reflexivity). now apply Hf. }
+    assert (F : opaque_texts_neutral (wrap_parens (o_postfix_parens O f) (rec f i)) ->
+                Good (wrap_parens (o_postfix_parens O f) (rec f i))).
+    { intros O'. apply wrap_parens_good, Hf. now apply otn_wrap_parens in O'. }
     destruct args as [|a r].
     - apply otn_app in HO as [O1 _]. apply good_app; [now apply F|apply good_code; reflexivity].
     - apply otn_app in HO as [O1 HO]. apply otn_app in HO as [_ HO]. apply otn_app in HO as [O2 _].
@@ -473,20 +492,9 @@ Section Layouts.
   Qed.
 
   (* binary operator *)
-  Lemma wrap_parens_good : forall b d, Good d -> Good (wrap_parens b d).
-  Proof.
-    intros [] d H; [|exact H]. unfold wrap_parens.
-    repeat apply good_app; try (apply good_code; reflexivity). exact H.
-  Qed.
-  Lemma otn_wrap_parens : forall b d, opaque_texts_neutral (wrap_parens b d) -> opaque_texts_neutral d.
-  Proof.
-    intros [] d H; [|exact H]. unfold wrap_parens in H. apply otn_app in H as [_ H].
-    now apply otn_app in H as [H _].
-  Qed.
-
   Lemma binop_doc_good : forall op l r i, R l -> R r ->
-    opaque_texts_neutral (binop_doc needs_parens w rec op l r i) ->
-    Good (binop_doc needs_parens w rec op l r i).
+    opaque_texts_neutral (binop_doc O w rec op l r i) ->
+    Good (binop_doc O w rec op l r i).
   Proof.
     intros op l r i Hl Hr HO. unfold binop_doc in *. cbv zeta in *.
     assert (GN : forall k, Good [Nl; ind k; Code (binary_op_str op +++ " ")]).
@@ -515,13 +523,11 @@ End Layouts.
 
 (* ------------------------------------------------------------------ the formatter *)
 Section Fmt.
-  Variable e2s : expr -> string.
-  Variable needs_parens : binop -> expr -> bool -> bool.
-  Variable record_key : string -> string.
+  Variable O : oracles.
   Variable key_ok : string -> bool.
-  Hypothesis Hrk : forall k, key_ok k = true -> neutral (record_key k).
+  Hypothesis Hrk : forall k, key_ok k = true -> neutral (o_record_key O k).
   Variable w : nat.
-  Let fmtd := fmtd e2s needs_parens record_key w.
+  Let fmtd := fmtd O w.
 
   (* the strings of the AST that the layouts print themselves: assigned names, parameter
      names, shorthand keys (no quote, no slash), static keys (accepted by key_ok), and the
@@ -549,7 +555,7 @@ Section Fmt.
     | _ => true
     end.
 
-  Lemma fmtd_eq' : forall e i, fmtd e i = impl_doc e2s needs_parens record_key w fmtd e i.
+  Lemma fmtd_eq' : forall e i, fmtd e i = impl_doc O w fmtd e i.
   Proof. intros; apply fmtd_eq. Qed.
 
   Definition Q (e : expr) : Prop := atoms_ok e = true -> R fmtd e.
@@ -563,7 +569,7 @@ Section Fmt.
     match goal with |- Q ?e /\ QC ?e =>
       assert (HQ : Q e) by
         (intros _ ? ?; rewrite fmtd_eq' in *; unfold impl_doc in *;
-         destruct (fits_single _ _ _ _ _); now apply opaque_good);
+         destruct (fits_single _ _ _ _); now apply opaque_good);
       split; [exact HQ | intros Hw; apply cond_doc_step_good; [exact (HQ Hw) | intros; discriminate]]
     end.
   Ltac finish HQ :=
@@ -591,7 +597,7 @@ Section Fmt.
       intros items H.
       assert (HQ : Q (EList items)).
       { intros Ha j HO. rewrite fmtd_eq' in *. unfold impl_doc in *.
-        destruct (fits_single _ _ _ _ _); [now apply opaque_good|].
+        destruct (fits_single _ _ _ _); [now apply opaque_good|].
         cbn [multiline_doc] in *. cbn [atoms_ok] in Ha. apply forallb_and_split in Ha as [Hc Hs].
         apply list_doc_good; auto.
         rewrite forallb_forall in Hs. rewrite Forall_forall in *. intros c Hin. apply (H c Hin), Hs, Hin. }
@@ -600,9 +606,9 @@ Section Fmt.
       intros entries H.
       assert (HQ : Q (ERec entries)).
       { intros Ha j HO. rewrite fmtd_eq' in *. unfold impl_doc in *.
-        destruct (fits_single _ _ _ _ _); [now apply opaque_good|].
+        destruct (fits_single _ _ _ _); [now apply opaque_good|].
         cbn [multiline_doc] in *. cbn [atoms_ok] in Ha. apply forallb_and_split in Ha as [Hc Hs].
-        apply (record_doc_good record_key key_ok Hrk); auto.
+        apply (record_doc_good O key_ok Hrk); auto.
         rewrite forallb_forall in Hs. rewrite Forall_forall in *. intros c Hin.
         specialize (H c Hin). specialize (Hs c Hin).
         destruct c as [lead [k v] tr]; cbn [cnode Pentry Pkey R_entry] in *.
@@ -624,7 +630,7 @@ Section Fmt.
       assert (HQ : Q (ECond e1 e2 e3)).
       { intros Ha j HO. cbn [atoms_ok] in Ha. apply andb_prop in Ha as [Ha H3]. apply andb_prop in Ha as [H1 H2].
         rewrite fmtd_eq' in *. unfold impl_doc in *.
-        destruct (fits_single _ _ _ _ _); [now apply opaque_good|].
+        destruct (fits_single _ _ _ _); [now apply opaque_good|].
         cbn [multiline_doc] in *. apply (QC3 H3); [exact (Q1 H1)|exact (Q2 H2)|exact HO]. }
       split; [exact HQ|].
       intros Hw; apply cond_doc_step_good; [exact (HQ Hw)|].
@@ -644,7 +650,7 @@ Section Fmt.
       intros x v [IHe _].
       assert (HQ : Q (EAssign x v)).
       { intros Ha j HO. rewrite fmtd_eq' in *. unfold impl_doc in *.
-        destruct (fits_single _ _ _ _ _); [now apply opaque_good|].
+        destruct (fits_single _ _ _ _); [now apply opaque_good|].
         cbn [multiline_doc] in *. cbn [atoms_ok] in Ha. apply andb_prop in Ha as [Hx Hv].
         change (Code (x +++ " = ") :: fmtd v j) with ([Code (x +++ " = ")] ++ fmtd v j).
         apply good_app; [apply good_code, neutral_app; [now apply plain_neutral|reflexivity]|].
@@ -654,7 +660,7 @@ Section Fmt.
       intros v [IHe _].
       assert (HQ : Q (EOutput v)).
       { intros Ha j HO. rewrite fmtd_eq' in *. unfold impl_doc in *.
-        destruct (fits_single _ _ _ _ _); [now apply opaque_good|].
+        destruct (fits_single _ _ _ _); [now apply opaque_good|].
         cbn [multiline_doc] in *. cbn [atoms_ok] in Ha.
         change (Code "output " :: fmtd v j) with ([Code "output "] ++ fmtd v j).
         apply good_app; [apply good_code; reflexivity|].
@@ -664,7 +670,7 @@ Section Fmt.
       intros f args [IHf _] H.
       assert (HQ : Q (ECall f args)).
       { intros Ha j HO. rewrite fmtd_eq' in *. unfold impl_doc in *.
-        destruct (fits_single _ _ _ _ _); [now apply opaque_good|].
+        destruct (fits_single _ _ _ _); [now apply opaque_good|].
         cbn [multiline_doc] in *. cbn [atoms_ok] in Ha. apply andb_prop in Ha as [Hf Hargs].
         apply call_doc_good; auto.
         rewrite forallb_forall in Hargs. rewrite Forall_forall in *. intros a Hin. apply (H a Hin), Hargs, Hin. }
@@ -675,7 +681,7 @@ Section Fmt.
       intros op e1 e2 [IH1 _] [IH2 _].
       assert (HQ : Q (EBin op e1 e2)).
       { intros Ha j HO. rewrite fmtd_eq' in *. unfold impl_doc in *.
-        destruct (fits_single _ _ _ _ _); [now apply opaque_good|].
+        destruct (fits_single _ _ _ _); [now apply opaque_good|].
         cbn [multiline_doc] in *. cbn [atoms_ok] in Ha. apply andb_prop in Ha as [H1 H2].
         apply binop_doc_good; auto. }
       finish HQ.
